@@ -1203,8 +1203,19 @@ def setter_shape(facts, prov, fn, adt_path, fld):
         return False, "type %s not found" % adt_path
     names = [f["name"] for f in adt["variants"][0]["fields"]]
     # a strong update of the parameter: `_1.fld = ..` on every path to the return
+    # (`self` may have been moved through locals on its way to the return place: `let mut cfg = self; cfg.fld = x; cfg`)
+    chain, grew = {1}, True
+    while grew:
+        grew = False
+        for blk in fn.blocks:
+            for st in blk["stmts"]:
+                if st["k"] == "assign" and not st["lhs"]["p"] and st["rv"]["k"] == "use" and st["rv"]["op"]["k"] in ("copy", "move") \
+                        and not st["rv"]["op"]["p"] and st["rv"]["op"]["l"] in chain and st["lhs"]["l"] not in chain and st["lhs"]["l"] != 0 \
+                        and len([d for d in fn.defs(st["lhs"]["l"]) if d[1] == "term" or not d[2]["lhs"]["p"]]) == 1:
+                    chain.add(st["lhs"]["l"])
+                    grew = True
     writes = [b for b, blk in enumerate(fn.blocks) for st in blk["stmts"]
-              if st["k"] == "assign" and st["lhs"]["l"] == 1 and st["lhs"]["p"] == ["." + fld] and not blk["cleanup"]]
+              if st["k"] == "assign" and st["lhs"]["l"] in chain and st["lhs"]["p"] == ["." + fld] and not blk["cleanup"]]
     strong = bool(writes) and fn.must_pass([0], writes)[0]
     got = {}
     for k in names:
